@@ -123,8 +123,7 @@ def gen_multi_unit(sc, sidecar_path, repo):
     body = sk.body_group
     no = [p[i].start for p, i, g in rxprep.find_calls(body.kids, 'new_observer')]
     isub = [p[i].start for p, i, g in rxprep.find_calls(body.kids, 'inner_subscribe')]
-    if no and isub and max(no) > min(isub) and not sc.get('allow_late_registration'):
-        sk_problems.append('an observer is registered after a source has already been subscribed')
+    late_registration = bool(no and isub and max(no) > min(isub) and not sc.get('allow_late_registration'))
     for c in cells:
         if c not in sk.cells and c not in sk.outer_cells:
             sk_problems.append('state cell `%s` not found' % c)
@@ -180,6 +179,18 @@ def gen_multi_unit(sc, sidecar_path, repo):
         f += '    r\n}\n' if ret else '}\n'
         fns.append(f)
         twins.append('fn %s_twin(%s)%s\n    requires\n%s    ensures false,\n{\n%s}\n' % (fn_name, ', '.join(params), (' -> (r: %s)' % ret) if ret else '', _fmt_list(req), ('    arbitrary_value()\n' if ret else '')))
+        c06 = [subst(x) for x in hc.get('c06_ensures', [])]
+        if c06 and not ret:
+            f6 = header + 'fn %s_c06(%s)\n    requires\n%s    ensures\n%s{\n' % (fn_name, ', '.join(params), _fmt_list(req), _fmt_list(['final(sctl).wf()'] + c06))
+            if hc.get('proof_pre'):
+                f6 += '    proof { %s }\n' % subst(hc['proof_pre'])
+            f6 += '    let _unit: () = /*BEGIN-EXTRACTED*/ %s /*END-EXTRACTED*/;\n' % body_txt
+            if hc.get('proof'):
+                f6 += '    proof { %s }\n' % subst(hc['proof'])
+            f6 += '}\n'
+            fns.append(f6)
+            meta.append({'fn': fn_name + '_c06', 'file': sc['file'], 'line': rxprep.line_of(src, ex.span[0]), 'span': list(ex.span),
+                         'sha256': ex.sha256, 'replacements': ex.replacements, 'loops': ex.loops})
         meta.append({'fn': fn_name, 'file': sc['file'], 'line': rxprep.line_of(src, ex.span[0]), 'span': list(ex.span),
                      'sha256': ex.sha256, 'replacements': ex.replacements, 'loops': ex.loops})
 
@@ -218,8 +229,9 @@ def gen_multi_unit(sc, sidecar_path, repo):
         os.path.basename(sidecar_path), sc.get('spec', ''), '\n'.join(fns))
     twin_text = prelude + '\nverus! {\n%s\n%s\n} // verus!\nfn main() {}\n' % (sc.get('spec', ''), '\n'.join(twins))
     return {'op': op, 'text': text, 'twins': twin_text, 'facts': skeleton_facts(sk, sc, src), 'skeleton_problems': sk_problems,
+            'definite_facts': {'prepare_before_subscribe': (not late_registration, 'an upstream observer is registered with the controller only after another input has already been subscribed: an input that signals synchronously ends the subscription before the late observer exists, and that observer is never torn down')},
             'outer_cells': list(sk.outer_cells), 'extracted': meta, 'props': sc.get('props', []), 'known_fail': {},
-            'fn_names': fn_names, 'twin_names': [m['fn'] + '_twin' for m in meta]}
+            'fn_names': fn_names, 'twin_names': [m['fn'] + '_twin' for m in meta if not m['fn'].endswith('_c06')]}
 
 
 def gen_unit(sidecar_path: str, repo: str) -> dict:
@@ -376,6 +388,22 @@ def gen_unit(sidecar_path: str, repo: str) -> dict:
         extracted_meta.append({'fn': fn_name, 'file': sc['file'], 'line': rxprep.line_of(src, ex.span[0]),
                                'span': list(ex.span), 'sha256': ex.sha256, 'replacements': ex.replacements,
                                'loops': ex.loops})
+        # C06 obligation: the same extracted body against a teardown-only contract (no statement about WHAT is delivered)
+        c06 = list(hc.get('c06_ensures', []))
+        if which in ('error', 'complete') and sc.get('c06_terminal_ends', True) and c06 is not None:
+            c06 = ['!final(sctl).sub@ && final(sctl).ups@ =~= Set::<int>::empty()'] + c06
+        if c06 and sc.get('c06', True):
+            f6 = header + 'fn %s_c06(%s)\n    requires\n%s    ensures\n%s{\n' % (fn_name, ', '.join(params), _fmt_list(req), _fmt_list(['final(sctl).wf()'] + c06))
+            if pre:
+                f6 += '    proof { %s }\n' % pre
+            f6 += '    let _unit: () = /*BEGIN-EXTRACTED*/ %s /*END-EXTRACTED*/;\n' % body
+            if post:
+                f6 += '    proof { %s }\n' % post
+            f6 += '}\n'
+            fns.append(f6)
+            extracted_meta.append({'fn': fn_name + '_c06', 'file': sc['file'], 'line': rxprep.line_of(src, ex.span[0]),
+                                   'span': list(ex.span), 'sha256': ex.sha256, 'replacements': ex.replacements,
+                                   'loops': ex.loops})
     # helpers
     for hname, cl in sk.helpers.items():
         hc = sc.get('helper', {}).get(hname)
@@ -455,7 +483,7 @@ def gen_unit(sidecar_path: str, repo: str) -> dict:
             'outer_cells': outer, 'extracted': extracted_meta, 'props': sc.get('props', []),
             'known_fail': sc.get('known_fail', {}),
             'fn_names': [m['fn'] for m in extracted_meta] + (['%s_init' % op] if init_fn else []),
-            'twin_names': [m['fn'] + '_twin' for m in extracted_meta]}
+            'twin_names': [m['fn'] + '_twin' for m in extracted_meta if not m['fn'].endswith('_c06')]}
 
 
 def insert_loop_invariants(body: str, invs: List[str], for_names: List[str] = None) -> str:
